@@ -23,7 +23,7 @@
  * compile-time parameters (runner): TT 0=BST 1=RB 2=AVL, H, OP (insert/remove/lookup/foreach/clear), PPOS, HIT, REMCASE,
  *   NEWMODE 0=p_tree_new 1=p_tree_new_with_data 2=p_tree_new_full(+notifiers),
  *   CMP_MAG n (comparator returns -n/0/n) or SYM_MAG (symbolic magnitude), FIXA(i) (optional: fixed colour / balance factor
- *   of chosen positions), CHK_LOOKUP_AFTER (lookup of an arbitrary key after the step), FREE_AFTER (p_tree_free after the
+ *   of chosen positions), CHK_LOOKUP_BEFORE / CHK_LOOKUP_AFTER (lookup of an arbitrary key before / after the step), FREE_AFTER (p_tree_free after the
  *   step + exactly-once accounting), CHK_MAP / CHK_BAL / CHK_OWN assertion groups (C12 / C13 / C14). */
 #ifndef H
 #define H 3
@@ -236,6 +236,15 @@ void harness(void) {
   op_rank = kpos;
 #endif
 
+#if (OP == OP_INSERT || OP == OP_REMOVE) && defined(CHK_LOOKUP_BEFORE)
+  { /* an arbitrary lookup (any key, by the stored key object itself or by an equal key) precedes the operation: lookups must not
+     * leave state behind that a later call trips over */
+    int q0 = ND_RANGE(1, NK);
+    ppointer got0 = p_tree_lookup(tree, KEY(q0, ND_BOOL() ? ID_OLD : ID_PROBE));
+    VASSERT(got0 == (exp_pres[q0] ? exp_val[q0] : NULL), "lookup before the operation = reference map");
+  }
+#endif
+
 #if OP == OP_INSERT
   p_tree_insert(tree, KEY(kpos, ID_NEW), VAL(kpos, ID_NEW));
   exp_pres[kpos] = 1; exp_key[kpos] = KEY(kpos, ID_NEW); exp_val[kpos] = VAL(kpos, ID_NEW);
@@ -269,7 +278,8 @@ void harness(void) {
 #ifdef CHK_LOOKUP_AFTER
   { /* lookup of an arbitrary key after the operation = reference */
     int q = ND_RANGE(1, NK);
-    ppointer got = p_tree_lookup(tree, KEY(q, ID_PROBE));
+    int qid = ND_RANGE(ID_OLD, ID_PROBE);      /* by the stored key object itself or by an equal key */
+    ppointer got = p_tree_lookup(tree, KEY(q, qid));
     VASSERT(got == (exp_pres[q] ? exp_val[q] : NULL), "lookup after the operation = reference map (other keys unchanged)");
   }
 #endif
